@@ -1176,6 +1176,48 @@ def scan_literal_tables(repo, chk):
 
 
 # ------------------------------------------------------------------------ run
+def check_m_grid(repo, chk):
+    """D_matrix_conj: the magnetic quantum numbers fed to exp(i m alpha) / exp(i m gamma) are -j, -j+1, ..., j
+    for every doubled spin 2j = 0..8 (constant folding of the np.arange arguments per 2j)"""
+    import ast as _ast
+
+    import sympy as _sp
+
+    from ..model import norm_text as _nt
+    from ..model import walk_local as _wl
+    from ..sym import Translator, Unmodelled
+
+    chk.rule("E5-mgrid", "D_matrix_conj builds m = (-j, -j+1, ..., j) (2j+1 values, unit step, half-integers for odd 2j) for every supported spin; both phase factors exp(i m alpha), exp(i m gamma) use this grid")
+    fn = repo.fn("tf_pwa/dfun.py::D_matrix_conj")
+    grid = None
+    for n in _wl(fn.node):
+        if isinstance(n, _ast.Assign) and isinstance(n.targets[0], _ast.Name) and n.targets[0].id == "m":
+            ar = [x for x in _ast.walk(n.value) if isinstance(x, _ast.Call) and _nt(x.func).endswith("arange")]
+            if ar:
+                grid = ar[0]
+    if grid is None:
+        raise AnalysisError("D_matrix_conj: m = ...arange(...) not found")
+    tr = Translator(repo)
+    for jj in range(0, 9):
+        try:
+            v = tr.eval(grid, {"j": _sp.Integer(jj)}, fn.mod, 0)
+        except Unmodelled as e:
+            raise AnalysisError("D_matrix_conj m-grid not modelled: %s" % e)
+        got = [x for x in list(v)]
+        want = [_sp.Rational(-jj, 2) + k for k in range(jj + 1)]
+        ok = got == want
+        chk.oblige("E5-mgrid", "2j=%d: m grid %s" % (jj, [str(x) for x in got]), ok, show=False)
+        if not ok:
+            chk.violation("E5-mgrid", fn.key, "m-grid:2j=%d" % jj, "for 2j=%d `%s` gives m = %s, the D-matrix needs %s" % (jj, _nt(grid), [str(x) for x in got], [str(x) for x in want]), file="tf_pwa/dfun.py", line=grid.lineno)
+    # both exponentials use m
+    uses = [x for x in _wl(fn.node) if isinstance(x, _ast.Call) and _nt(x.func) == "exp_i"]
+    ok = len(uses) == 2 and all(len(u.args) == 2 and _nt(u.args[1]) == "m" for u in uses) and sorted(_nt(u.args[0]) for u in uses) == ["alpha", "gamma"]
+    chk.oblige("E5-mgrid", "exp_i(alpha, m) and exp_i(gamma, m) both use the grid", ok)
+    if not ok:
+        chk.violation("E5-mgrid", fn.key, "phase-args", "the two phase factors are not exp_i(alpha, m) and exp_i(gamma, m): %s" % [_nt(u) for u in uses], file="tf_pwa/dfun.py", line=fn.lineno)
+    chk.out("  [E5-mgrid] m grids for 2j = 0..8 checked")
+
+
 def run(repo, chk, tier):
     chk.rule("E5-cg", "every leaf of the bundled JSON table equals the exact Clebsch-Gordan coefficient of its key path (Racah formula, exact rationals, one sqrt; |delta|<1e-12) and its key path obeys the selection rules")
     chk.rule("E5-cg-complete", "within each stored (j1,j2) block no admissible key path with non-zero coefficient is absent (an absent path is served as 0.0)")
@@ -1199,6 +1241,7 @@ def run(repo, chk, tier):
     table, entries, blocks, keys_ok = check_table(repo, chk, rel)
     done = check_lookup(repo, chk, table_name, table, entries, blocks)
     scan_literal_tables(repo, chk)
+    check_m_grid(repo, chk)
     chk.require_count("E5-cg", MIN_ENTRIES)
     if done and not any(v["rule"] in ("E5-swap", "E5-args") for v in chk.violations):
         chk.require_count("E5-swap", 2)
